@@ -1,10 +1,10 @@
 """Deterministic thread scheduler for the concurrency properties (C12, C13).
 
 Real `threading.Thread`s run the real testtools code, but only the thread that holds the *baton* runs;
-all others wait on one condition variable.  A managed thread gives the baton back at every *yield
+all others wait, each on a private semaphore.  A managed thread may pass the baton on at every *yield
 point* = immediately BEFORE each operation on a shared object (semaphore acquire/release, a method of
-the shared target, queue put/get, thread start/join).  A controller (the harness thread) then takes
-the next scheduling decision:
+the shared target, queue put/get, thread start/join).  There the next scheduling decision is taken (by
+the thread that holds the baton at that moment; the harness thread only starts the run and waits):
 
     schedule = list of thread ids; entries naming a thread that is finished, unknown or blocked are
     skipped (a disabled pick is a no-op, exactly as in the Lean model `Conc.run`); when the list is used
@@ -40,12 +40,17 @@ def current_tid():
 
 
 class Scheduler:
+    """Baton passing with one private semaphore per thread.  The thread that reaches a yield point (or ends)
+    takes the next scheduling decision itself and hands the baton directly to the chosen thread - or simply
+    carries on if it chose itself - so a decision costs at most one OS-level hand-over.  All scheduler
+    state is only ever touched by the thread that holds the baton."""
+
     def __init__(self, schedule=()):
         self.schedule = list(schedule)
         self.pos = 0
-        self.cv = threading.Condition()
         self.current = CTL
-        self.back = {}        # tid -> who gets the baton back
+        self.wake = {CTL: threading.Semaphore(0)}   # who -> its private semaphore
+        self.eager = {}       # tid -> spawner, while the new thread runs up to its first yield point
         self.order = []       # tids in creation order
         self.pred = {}        # parked tid -> predicate (None = always enabled)
         self.done = set()
@@ -54,88 +59,98 @@ class Scheduler:
         self.deadlock = None
         self.threads = {}
         self.errors = {}      # tid -> exception that escaped the thread body
-        self.on_finish = {}   # tid -> callback run (under the baton) when the thread ends
 
     # ----- baton
-    def _wait_for(self, who):
-        while self.current != who:
-            if self.deadlock is not None and who != CTL:
-                raise Deadlock()
-            if not self.cv.wait(WATCHDOG_S):
-                raise Hang('scheduler watchdog: %r waited %ss for the baton (held by %r)' % (who, WATCHDOG_S, self.current))
+    def _block(self, who):
+        """wait until the baton is handed to `who`"""
+        if not self.wake[who].acquire(timeout=WATCHDOG_S):
+            raise Hang('scheduler watchdog: %r waited %ss for the baton (held by %r)' % (who, WATCHDOG_S, self.current))
+        if self.deadlock is not None and who != CTL:
+            raise Deadlock()
 
-    def _give(self, to, frm):
-        self.back[to] = frm
+    def _hand(self, to):
         self.current = to
-        self.cv.notify_all()
-        self._wait_for(frm)
+        self.wake[to].release()
+
+    def enabled(self):
+        return [t for t in self.order if t in self.pred and (self.pred[t] is None or self.pred[t]())]
+
+    def _decide(self):
+        """the next thread to run; CTL when everything is over (all finished, or deadlock)"""
+        en = self.enabled()
+        if not en:
+            if len(self.done) < len(self.order):
+                self.deadlock = [t for t in self.order if t not in self.done]
+                for t in self.deadlock:          # let the parked threads unwind
+                    if t in self.pred:
+                        self.wake[t].release()
+            return CTL
+        nxt = None
+        while self.pos < len(self.schedule):
+            want = self.schedule[self.pos]
+            self.pos += 1
+            if want in en:
+                nxt = want
+                break
+            self.skipped += 1
+        if nxt is None:
+            nxt = min(en)
+        self.picks.append(nxt)
+        return nxt
 
     def spawn(self, tid, fn, by=CTL):
         """create thread `tid` running fn(); it runs eagerly to its first yield point, then `by` continues"""
+        self.wake[tid] = threading.Semaphore(0)
+
         def body():
             _local.tid = tid
             try:
-                with self.cv:
-                    self._wait_for(tid)
+                self._block(tid)
                 fn()
             except Deadlock:
                 pass
             except BaseException as e:   # noqa: recorded, reported by the plug-in
                 self.errors[tid] = e
             finally:
-                with self.cv:
-                    cb = self.on_finish.get(tid)
-                    if cb is not None and self.deadlock is None:
-                        cb()
-                    self.done.add(tid)
-                    self.current = self.back.pop(tid, CTL)
-                    self.cv.notify_all()
+                self.done.add(tid)
+                if self.deadlock is None:
+                    if tid in self.eager:            # ended before its first yield point
+                        self._hand(self.eager.pop(tid))
+                    else:
+                        self._hand(self._decide())
         th = threading.Thread(target=body, daemon=True)
         self.threads[tid] = th
         self.order.append(tid)
+        self.eager[tid] = by
         th.start()
-        with self.cv:
-            self._give(tid, by)
+        self._hand(tid)
+        self._block(by)
 
     def yield_point(self, pred=None):
         """called by the running managed thread immediately before an operation on a shared object"""
         tid = _local.tid
-        with self.cv:
-            if self.deadlock is not None:
-                raise Deadlock()
-            self.pred[tid] = pred
-            self.current = self.back.pop(tid)
-            self.cv.notify_all()
-            self._wait_for(tid)
-            del self.pred[tid]
+        if self.deadlock is not None:
+            raise Deadlock()
+        self.pred[tid] = pred
+        if tid in self.eager:                        # first yield point of a new thread: back to its creator
+            self._hand(self.eager.pop(tid))
+            self._block(tid)
+        else:
+            nxt = self._decide()
+            if nxt != tid:
+                self._hand(nxt)
+                if nxt == CTL and self.deadlock is not None:
+                    raise Deadlock()
+                self._block(tid)
+        del self.pred[tid]
 
     # ----- controller
-    def enabled(self):
-        return [t for t in self.order if t in self.pred and (self.pred[t] is None or self.pred[t]())]
-
     def run(self):
         """take decisions until every thread is finished or none is enabled; returns the deadlocked tids or None"""
-        with self.cv:
-            while True:
-                if len(self.done) == len(self.order):
-                    break
-                en = self.enabled()
-                if not en:
-                    self.deadlock = [t for t in self.order if t not in self.done]
-                    self.cv.notify_all()
-                    break
-                nxt = None
-                while self.pos < len(self.schedule):
-                    want = self.schedule[self.pos]
-                    self.pos += 1
-                    if want in en:
-                        nxt = want
-                        break
-                    self.skipped += 1
-                if nxt is None:
-                    nxt = min(en)
-                self.picks.append(nxt)
-                self._give(nxt, CTL)
+        nxt = self._decide()
+        if nxt != CTL:
+            self._hand(nxt)
+            self._block(CTL)
         for th in list(self.threads.values()):
             th.join(5)
         return self.deadlock
